@@ -223,7 +223,7 @@ fn run(ctx: &Ctx) {
 	}
 	if !growth_shard {
 		// the same histories with the library's own worker threads
-		let n = scaled(ctx, 1_000, 20_000);
+		let n = scaled(ctx, 300, 20_000);
 		if !ctx.run_prop("trees-bg", n, scenario(40), |sc, dir| run_scenario_mode(sc, dir, true)) {
 			return
 		}
